@@ -26,18 +26,9 @@ Proof.
   { pose proof (DecimalN.Unsigned.to_of (N.to_uint (Npos p))) as T. rewrite DecimalN.Unsigned.of_to in T.
     cbn [N.to_uint] in T. symmetry. exact T. }
   rewrite E in U. rewrite unorm_D0 in U.
-  destruct l as [| l | l | l | l | l | l | l | l | l | l].
-  - apply (DecimalPos.Unsigned.to_uint_nonzero p). exact E.
-  - pose proof (nb_digits_unorm (D0 l) ltac:(discriminate)) as B. rewrite U in B. cbn [nb_digits] in B. lia.
-  - pose proof (nb_digits_unorm (D1 l) ltac:(discriminate)) as B. rewrite U in B. cbn [nb_digits] in B. lia.
-  - pose proof (nb_digits_unorm (D2 l) ltac:(discriminate)) as B. rewrite U in B. cbn [nb_digits] in B. lia.
-  - pose proof (nb_digits_unorm (D3 l) ltac:(discriminate)) as B. rewrite U in B. cbn [nb_digits] in B. lia.
-  - pose proof (nb_digits_unorm (D4 l) ltac:(discriminate)) as B. rewrite U in B. cbn [nb_digits] in B. lia.
-  - pose proof (nb_digits_unorm (D5 l) ltac:(discriminate)) as B. rewrite U in B. cbn [nb_digits] in B. lia.
-  - pose proof (nb_digits_unorm (D6 l) ltac:(discriminate)) as B. rewrite U in B. cbn [nb_digits] in B. lia.
-  - pose proof (nb_digits_unorm (D7 l) ltac:(discriminate)) as B. rewrite U in B. cbn [nb_digits] in B. lia.
-  - pose proof (nb_digits_unorm (D8 l) ltac:(discriminate)) as B. rewrite U in B. cbn [nb_digits] in B. lia.
-  - pose proof (nb_digits_unorm (D9 l) ltac:(discriminate)) as B. rewrite U in B. cbn [nb_digits] in B. lia.
+  destruct l as [| l | l | l | l | l | l | l | l | l | l]; [apply (DecimalPos.Unsigned.to_uint_nonzero p); exact E|..];
+    match type of U with unorm ?d = _ => pose proof (nb_digits_unorm d ltac:(discriminate)) as B end;
+    rewrite U in B; cbn [nb_digits] in B; lia.
 Qed.
 
 Lemma dec_length_bound n k : (1 <= k)%nat -> n < 10 ^ N.of_nat k -> (length (dec n) <= k)%nat.
@@ -45,36 +36,15 @@ Proof.
   intros K H. destruct n as [|p]; [cbn; lia|].
   unfold dec. cbn [N.to_uint].
   pose proof (DecimalPos.Unsigned.of_to p) as OT.
-  destruct (Pos.to_uint p) as [| l | l | l | l | l | l | l | l | l | l] eqn:E.
-  - exfalso. apply (DecimalPos.Unsigned.to_uint_nonnil p). exact E.
-  - exfalso. apply (to_uint_no_leading_zero p l). exact E.
-  - cbn [Pos.of_uint] in OT. injection OT as OT. pose proof (of_uint_acc_ge l 1) as G. rewrite OT, usize_length in G.
-    cbn [uint_to_str length]. destruct (le_lt_dec (S (length (uint_to_str l))) k) as [|L]; [assumption|exfalso].
-    assert (10 ^ N.of_nat k <= 10 ^ N.of_nat (length (uint_to_str l))) by (apply N.pow_le_mono_r; lia). lia.
-  - cbn [Pos.of_uint] in OT. injection OT as OT. pose proof (of_uint_acc_ge l 2) as G. rewrite OT, usize_length in G.
-    cbn [uint_to_str length]. destruct (le_lt_dec (S (length (uint_to_str l))) k) as [|L]; [assumption|exfalso].
-    assert (10 ^ N.of_nat k <= 10 ^ N.of_nat (length (uint_to_str l))) by (apply N.pow_le_mono_r; lia). lia.
-  - cbn [Pos.of_uint] in OT. injection OT as OT. pose proof (of_uint_acc_ge l 3) as G. rewrite OT, usize_length in G.
-    cbn [uint_to_str length]. destruct (le_lt_dec (S (length (uint_to_str l))) k) as [|L]; [assumption|exfalso].
-    assert (10 ^ N.of_nat k <= 10 ^ N.of_nat (length (uint_to_str l))) by (apply N.pow_le_mono_r; lia). lia.
-  - cbn [Pos.of_uint] in OT. injection OT as OT. pose proof (of_uint_acc_ge l 4) as G. rewrite OT, usize_length in G.
-    cbn [uint_to_str length]. destruct (le_lt_dec (S (length (uint_to_str l))) k) as [|L]; [assumption|exfalso].
-    assert (10 ^ N.of_nat k <= 10 ^ N.of_nat (length (uint_to_str l))) by (apply N.pow_le_mono_r; lia). lia.
-  - cbn [Pos.of_uint] in OT. injection OT as OT. pose proof (of_uint_acc_ge l 5) as G. rewrite OT, usize_length in G.
-    cbn [uint_to_str length]. destruct (le_lt_dec (S (length (uint_to_str l))) k) as [|L]; [assumption|exfalso].
-    assert (10 ^ N.of_nat k <= 10 ^ N.of_nat (length (uint_to_str l))) by (apply N.pow_le_mono_r; lia). lia.
-  - cbn [Pos.of_uint] in OT. injection OT as OT. pose proof (of_uint_acc_ge l 6) as G. rewrite OT, usize_length in G.
-    cbn [uint_to_str length]. destruct (le_lt_dec (S (length (uint_to_str l))) k) as [|L]; [assumption|exfalso].
-    assert (10 ^ N.of_nat k <= 10 ^ N.of_nat (length (uint_to_str l))) by (apply N.pow_le_mono_r; lia). lia.
-  - cbn [Pos.of_uint] in OT. injection OT as OT. pose proof (of_uint_acc_ge l 7) as G. rewrite OT, usize_length in G.
-    cbn [uint_to_str length]. destruct (le_lt_dec (S (length (uint_to_str l))) k) as [|L]; [assumption|exfalso].
-    assert (10 ^ N.of_nat k <= 10 ^ N.of_nat (length (uint_to_str l))) by (apply N.pow_le_mono_r; lia). lia.
-  - cbn [Pos.of_uint] in OT. injection OT as OT. pose proof (of_uint_acc_ge l 8) as G. rewrite OT, usize_length in G.
-    cbn [uint_to_str length]. destruct (le_lt_dec (S (length (uint_to_str l))) k) as [|L]; [assumption|exfalso].
-    assert (10 ^ N.of_nat k <= 10 ^ N.of_nat (length (uint_to_str l))) by (apply N.pow_le_mono_r; lia). lia.
-  - cbn [Pos.of_uint] in OT. injection OT as OT. pose proof (of_uint_acc_ge l 9) as G. rewrite OT, usize_length in G.
-    cbn [uint_to_str length]. destruct (le_lt_dec (S (length (uint_to_str l))) k) as [|L]; [assumption|exfalso].
-    assert (10 ^ N.of_nat k <= 10 ^ N.of_nat (length (uint_to_str l))) by (apply N.pow_le_mono_r; lia). lia.
+  destruct (Pos.to_uint p) as [| l | l | l | l | l | l | l | l | l | l] eqn:E;
+    [exfalso; apply (DecimalPos.Unsigned.to_uint_nonnil p); exact E
+    |exfalso; apply (to_uint_no_leading_zero p l); exact E|..];
+    (* leading digit d = 1..9: Npos p = of_uint_acc l d >= 10 ^ (number of remaining digits) *)
+    cbn [Pos.of_uint] in OT; injection OT as OT;
+    match type of OT with Pos.of_uint_acc _ ?d = _ => pose proof (of_uint_acc_ge l d) as G end;
+    rewrite OT, usize_length in G; cbn [uint_to_str length];
+    (destruct (le_lt_dec (S (length (uint_to_str l))) k) as [|L]; [assumption|exfalso]);
+    assert (10 ^ N.of_nat k <= 10 ^ N.of_nat (length (uint_to_str l))) by (apply N.pow_le_mono_r; lia); lia.
 Qed.
 
 Lemma two64_lt_pow : two64N < 10 ^ N.of_nat 20. Proof. vm_compute. reflexivity. Qed.
